@@ -120,6 +120,15 @@ impl<T> Clone for Sender<T> {
     }
 }
 
+// (crossbeam's channels are multi-consumer: a receiver can be cloned; all clones take from the same
+// queue and the channel is disconnected for senders only when the last one is dropped)
+impl<T> Clone for Receiver<T> {
+    fn clone(&self) -> Self {
+        self.0.chan.lock().unwrap().receivers += 1;
+        Receiver(self.0.clone())
+    }
+}
+
 impl<T> Drop for Sender<T> {
     fn drop(&mut self) {
         let mut c = self.0.chan.lock().unwrap();
